@@ -9,8 +9,12 @@ HERE = os.path.dirname(os.path.abspath(__file__))
 
 A_PY = ["A1 run-to-completion event handlers", "A2 int/float as mathematical numbers",
         "A3 documented behaviour of builtins (sorted = ordered permutation, random.* and time.time as oracles)",
-        "A4 strings: uninterpreted sort with equality, dec/undec for '%d'", "A5 exception catalogue"]
-A_SQL = ["A6 relational semantics of the SQL subset under PRAGMA foreign_keys=ON",
+        "A4 strings: uninterpreted sort with equality, dec/undec for '%d'; any other formatted string / f-string is some unconstrained string; "
+        "int(s) raises ValueError unless s parses, and int('%d' % i) == i", "A5 exception catalogue",
+        "frame.maywrite obligations are syntactic (Dafny-style modifies): every statement that may write a heap field of self or a table names a component of the modifies clause",
+        "branches are taken without asking the solver; a path that ends in an unsupported construct is dropped only if its quantifier-free path condition is unsatisfiable"]
+A_SQL = ["A6 relational semantics of the SQL subset under PRAGMA foreign_keys=ON (statements outside the original `col=? AND ...` forms: "
+         "three-valued WHERE expressions, column lists, joins on a PRIMARY KEY whose uniqueness SQLite enforces, IN sub-selects - pvc/sqlx.py)",
          "A7 sqlite3 legacy transaction control (implicit BEGIN before DML, commit() ends it)",
          "A8 atomic durable commit of SQLite (rollback journal, synchronous=FULL)"]
 A_FW = ["A9 commands are JSON objects with string identifiers", "A10 Autobahn callback order; sendMessage queues per connection",
@@ -125,6 +129,10 @@ PROPS["C18"]["functions_all_dynamic"] = config_readers
 # C10's last sentence (re-sent claim / release / open / close after a crash reach the same answers and state) is C14's
 # statement for the crash case: the clauses C14 rests on count for C10 too, and so do C14's compositions
 TAG_ALSO = {"C10": ["C14"]}
+USAGE_CONTENT_ONLY = {"C15", "C16"}
+# obligations attributed by their own tags only, even in a function a property takes wholesale (functions_all):
+# an exception escaping `expire` is about the sweeps continuing (C10, C13)
+NARROW_ATTRIBUTION = {("server_tap.makeService.<locals>.expire", "no_exception")}
 PROPS["C10"]["lemmas"] = PROPS["C10"]["lemmas"] + [COMPOSE.c14]
 PROPS["C10"]["canaries"] = [COMPOSE.canaries]
 PROPS["C10"]["conditioned_on"] = ["F8", "F11"]
